@@ -27,7 +27,7 @@
 //! Histories: exhaustive up to length 5 (quick) / 7 (thorough) over add/remove of {-1.5, 0, 2, 1e8, NaN}
 //! (10 operations per step, 1.1e7 states in the thorough tier, every state checked); seeded random histories
 //! of length up to 400 over mixed-magnitude alphabets of 2..8 values (incl. ±0, adjacent doubles) in four
-//! styles: random walk, fill–drain–refill, hovering near empty, large values inserted and removed around small ones.
+//! styles (alphabets also at one common scale 1e-100..1e100): random walk, fill–drain–refill, hovering near empty, large values inserted and removed around small ones.
 use crate::search::Ctx;
 use num_bigint::BigInt;
 use num_rational::BigRational;
@@ -611,7 +611,10 @@ fn next_up(x: f64) -> f64 {
 fn random_alphabet(cx: &mut Ctx) -> Vec<f64> {
     let k = 2 + cx.r.below(7) as usize;
     let mut a: Vec<f64> = vec![];
-    let style = cx.r.below(4);
+    let style = cx.r.below(5);
+    // style 4: the whole alphabet at ONE common scale far from 1 (1e-100 .. 1e100): absolute thresholds or
+    // constants in the bookkeeping show up only when every magnitude ever inserted is tiny (or huge)
+    let common = 10f64.powf(cx.r.range(-100.0, 100.0));
     while a.len() < k {
         let s = if cx.r.below(3) == 0 { -1.0 } else { 1.0 };
         let v = match (style, cx.r.below(10)) {
@@ -628,6 +631,7 @@ fn random_alphabet(cx: &mut Ctx) -> Vec<f64> {
                     s * cx.r.range(0.0, 10.0)
                 }
             }
+            (4, _) => s * common * (1.0 + cx.r.below(9) as f64),
             _ => (cx.r.below(41) as f64 - 20.0) * 0.25, // small dyadic lattice
         };
         if v.is_finite() && v.abs() < 1e300 {
